@@ -505,6 +505,15 @@ func (in *Interp) freshRandBytes(n int) []*Term {
 func init() {
 	intrinsics["crypto/rand.Read"] = func(in *Interp, fr *Frame, args []Value) Value {
 		dst := args[0].(SliceV)
+		// a harness may have replaced rand.Reader by its own reader
+		for _, p := range in.prog.AllPackages() {
+			if p.Pkg.Path() == "crypto/rand" {
+				rv := in.load(PtrV{C: in.global(p.Var("Reader"))})
+				if iv, ok := rv.(IfaceV); ok && iv.T != nil && !strings.Contains(iv.T.String(), "crypto/rand.reader") {
+					return intrinsics["io.ReadFull"](in, fr, []Value{iv, dst})
+				}
+			}
+		}
 		bs := in.freshRandBytes(dst.Len)
 		for i, b := range bs {
 			in.store(PtrV{dst.C, extPath(dst.Path, dst.Off+i)}, b)
@@ -696,8 +705,16 @@ func (in *Interp) hashApply(kind string, key, stream []*Term) *hashApp {
 	}
 	// axioms against earlier applications of the same kind (at least one side symbolic)
 	for _, o := range in.hashes {
-		if o.kind != kind || (o.conc != nil && h.conc != nil) || in.fieldOn() {
-			// field mode: hash outputs on syntactically different streams are independent indeterminates
+		if o.kind != kind || (o.conc != nil && h.conc != nil) {
+			continue
+		}
+		if in.fieldOn() {
+			// field mode: streams are canonical, so syntactically different streams are different inputs and
+			// their digests differ (collision freedom); no stream comparison needed
+			m := hashAxiomBytes
+			if len(o.out) >= m && len(h.out) >= m {
+				in.assumeAxiom(Not(streamEq(o.out[:m], h.out[:m])))
+			}
 			continue
 		}
 		se := And(streamEq(o.key, h.key), streamEq(o.stream, h.stream))
@@ -709,6 +726,15 @@ func (in *Interp) hashApply(kind string, key, stream []*Term) *hashApp {
 			m = len(h.out)
 		}
 		oe := streamEq(o.out[:m], h.out[:m])
+		// every aligned 32-byte block of the output is collision-free as well (XOF blocks used as separate values)
+		for blk := hashAxiomBytes; blk+hashAxiomBytes <= len(o.out) && blk+hashAxiomBytes <= len(h.out); blk += hashAxiomBytes {
+			oeb := streamEq(o.out[blk:blk+hashAxiomBytes], h.out[blk:blk+hashAxiomBytes])
+			if se.IsFalse() {
+				in.assumeAxiom(Not(oeb))
+			} else {
+				in.assumeAxiom(Implies(oeb, se))
+			}
+		}
 		if se.IsFalse() {
 			in.assumeAxiom(Not(oe)) // collision-freeness
 		} else {
@@ -719,6 +745,10 @@ func (in *Interp) hashApply(kind string, key, stream []*Term) *hashApp {
 			in.assumeAxiom(Implies(se, streamEq(o.out[:all], h.out[:all]))) // functional consistency
 			in.assumeAxiom(Implies(oe, se))                                  // collision-freeness
 		}
+	}
+	// distinct aligned blocks of one symbolic output differ
+	if h.conc == nil && len(h.out) >= 2*hashAxiomBytes && !in.fieldOn() {
+		in.assumeAxiom(Not(streamEq(h.out[:hashAxiomBytes], h.out[hashAxiomBytes:2*hashAxiomBytes])))
 	}
 	in.hashes = append(in.hashes, h)
 	return h
